@@ -92,6 +92,15 @@ def check(case, ctx):
                 ctx.label('input:infinitely-many-derivations')
             except gram.TooMany:
                 ctx.label('input:too-many-derivations (skipped)'); continue
+            if expected is not None:
+                # few shaped trees can hide astronomically many derivations (filtered/inlined parts): lark's explicit result then is
+                # a giant _ambig of equal trees - size, not property
+                try:
+                    if ref.count(cap=3000) > 3000: raise gram.TooMany()
+                except gram.TooMany:
+                    ctx.label('input:too-many-derivations (skipped)'); continue
+                except gram.Cyclic:
+                    pass
             try:
                 t = p.parse(w)
             except UnexpectedInput:
